@@ -757,6 +757,60 @@ func (a *Analysis) unchangedBetween(r, use ssa.Instruction, via *ssa.BasicBlock,
 		}
 	}
 	g(target)
+	// a cycle through the target that does not pass the read's block: what follows the use comes round again
+	// before the value is read anew
+	cyc := map[*ssa.BasicBlock]bool{}
+	{
+		after := map[*ssa.BasicBlock]bool{}
+		var h func(b *ssa.BasicBlock)
+		h = func(b *ssa.BasicBlock) {
+			if after[b] || (b == rb && r != nil) {
+				return
+			}
+			after[b] = true
+			for _, s := range b.Succs {
+				h(s)
+			}
+		}
+		for _, s := range target.Succs {
+			h(s)
+		}
+		if after[target] {
+			// blocks reachable from the target (avoiding the read) that reach the target again
+			back := map[*ssa.BasicBlock]bool{}
+			var k func(b *ssa.BasicBlock)
+			k = func(b *ssa.BasicBlock) {
+				if back[b] || !after[b] {
+					return
+				}
+				back[b] = true
+				for _, p := range b.Preds {
+					k(p)
+				}
+			}
+			k(target)
+			for b := range back {
+				cyc[b] = true
+			}
+		}
+	}
+	for b := range cyc {
+		if fwd[b] && bwd[b] && b != ub && b != rb {
+			continue // scanned completely below
+		}
+		for _, in := range b.Instrs {
+			if in == r || (b == ub && via == nil && in == use) {
+				continue
+			}
+			if b == rb && r != nil {
+				// only what follows the read in its own block can lie between (the block is entered once per read)
+				break
+			}
+			if a.mayChange(in, dep) {
+				return false
+			}
+		}
+	}
 	for b := range fwd {
 		if !bwd[b] {
 			continue
@@ -872,7 +926,7 @@ func (a *Analysis) callMayChange(c *ssa.CallCommon, dep *Term, fieldsHit func(ma
 		if iface == "" {
 			return false
 		}
-		return ifaceMutators[iface][c.Method.Name()] && dep.Ifaces[iface]
+		return ifaceMayMutate(iface, c.Method.Name()) && dep.Ifaces[iface]
 	}
 	var callee *ssa.Function
 	switch v := c.Value.(type) {
@@ -1604,7 +1658,7 @@ func (a *Analysis) call(f *Frame, site ssa.CallInstruction, c *ssa.CallCommon, s
 	if c.IsInvoke() {
 		iface := ifaceOf(c)
 		if iface != "" {
-			if ifaceMutators[iface][c.Method.Name()] {
+			if ifaceMayMutate(iface, c.Method.Name()) {
 				return a.killIface(st, iface), nil
 			}
 			return st, nil
@@ -1652,6 +1706,11 @@ func (a *Analysis) call(f *Frame, site ssa.CallInstruction, c *ssa.CallCommon, s
 			if t.readsMemory() && !a.fresh(c.Args[i], at, nil) {
 				t = capturedCopy(t)
 			}
+			// ... and inside the callee the parameter keeps that name only if the memory is not written before
+			// any of its uses there
+			if t.readsMemory() && !isReferenceType(par.Type()) && len(callee.Blocks) > 0 && !a.P.stableAtUses(nil, par, t) {
+				t = capturedCopy(t)
+			}
 			sub.Bind[par] = t
 			sub.bindKey += "|" + t.S
 		}
@@ -1661,6 +1720,21 @@ func (a *Analysis) call(f *Frame, site ssa.CallInstruction, c *ssa.CallCommon, s
 			t := a.P.cellTerm(f, bindings[i])
 			if al, ok := bindings[i].(*ssa.Alloc); ok && t.readsMemory() {
 				if v := singleStore(al); v != nil && !a.fresh(v, at, nil) {
+					t = capturedCopy(t)
+				}
+			}
+			// inside the closure the captured value keeps its name only if the memory it was read from is not
+			// written before any use of it there
+			if t.readsMemory() && !strings.HasPrefix(t.S, "&@") {
+				stable := true
+				if refs := fv.Referrers(); refs != nil {
+					for _, r := range *refs {
+						if ld, ok := r.(*ssa.UnOp); ok && ld.Op == token.MUL && !isReferenceType(ld.Type()) && !a.P.stableAtUses(nil, ld, t) {
+							stable = false
+						}
+					}
+				}
+				if !stable {
 					t = capturedCopy(t)
 				}
 			}
@@ -1807,7 +1881,7 @@ func (p *Program) Effects(fn *ssa.Function) *EffectSummary {
 				}
 				if c.IsInvoke() {
 					iface := ifaceOf(c)
-					if iface != "" && ifaceMutators[iface][c.Method.Name()] {
+					if iface != "" && ifaceMayMutate(iface, c.Method.Name()) {
 						e.Ifaces[iface] = true
 					}
 					continue
